@@ -24,7 +24,9 @@ from .c13 import ds_hook
 
 PROP = 'C12'
 SRC, FRQ = 'TxED-1', 'f-1'
-PRE = ('plain', 'computed', 'misfit', 'gradient', 'partial', 'results_only')
+PRE = ('plain', 'computed', 'misfit', 'gradient', 'partial', 'results_only', 'gradient_results_only', 'computed_old_weights')
+# gradient_results_only: a cached gradient whose back-propagated fields are gone (after clean('keepresults'), copy / to_dict / to_file(what='results'))
+# computed_old_weights:  data weights left in the survey by an earlier misfit evaluation (they are only written when absent)
 
 
 def E_tag(mv):
@@ -89,11 +91,16 @@ def mk_sim(pre, mv=0, case='isotropic'):
     # to the class must not be mistaken for an AttributeError of the code under contract)
     sim.fields['__unmodelled__'] = constructor_attributes() - set(sim.fields)
     st = sim.fields
+    orig_pre = pre
     if pre == 'results_only':        # after clean('keepresults'): responses, misfit kept; fields dropped
         pre_ = 'misfit'
+    elif pre == 'gradient_results_only':
+        pre_ = 'gradient'
+    elif pre == 'computed_old_weights':
+        pre_ = 'computed'
     else:
         pre_ = pre
-    if pre_ in ('computed', 'misfit', 'gradient', 'partial') and pre != 'results_only':
+    if pre_ in ('computed', 'misfit', 'gradient', 'partial') and pre not in ('results_only', 'gradient_results_only'):
         st['_dict_efield'][SRC][FRQ] = field_obj({E_tag(mv)})
         st['_dict_efield_info'][SRC][FRQ] = {'exit': 0}
     pre = pre_
@@ -110,10 +117,15 @@ def mk_sim(pre, mv=0, case='isotropic'):
         mf.tags = {E_tag(mv), ('OBS',)}
         st['_misfit'] = cx.DArr(cx.Store('misfit-scalar'))
         st['_misfit'].store.deps = {E_tag(mv), ('OBS',)}
+    if orig_pre == 'computed_old_weights':
+        w = cx.DArr(cx.Store('data.weights', None))
+        w.store.deps = {('WEIGHTS-OF-AN-EARLIER-EVALUATION',)}
+        items['weights'] = w
     if pre == 'gradient':
         rt = ('R', frozenset({E_tag(mv), ('OBS',)}), mv)
-        st['_dict_bfield'] = {SRC: {FRQ: field_obj({rt})}}
-        st['_dict_bfield_info'] = {SRC: {FRQ: {'exit': 0}}}
+        if orig_pre != 'gradient_results_only':
+            st['_dict_bfield'] = {SRC: {FRQ: field_obj({rt})}}
+            st['_dict_bfield_info'] = {SRC: {FRQ: {'exit': 0}}}
         g = cx.NDArr(cx.Store('gradient'))
         g.store.deps = {rt, E_tag(mv)}
         st['_gradient'] = g
@@ -348,7 +360,7 @@ def task_op(op):
         col.function(f'simulations.Simulation.{f}')
     res = []
     for pre in PRE:
-        if op == 'jtvec' and pre in ('plain', 'computed', 'partial'):
+        if op == 'jtvec' and pre in ('plain', 'computed', 'partial', 'computed_old_weights'):
             continue       # jtvec needs weights: documented to be used with the weighted residual after a misfit evaluation
         res += run_op(op, pre)
     bad = {}
@@ -418,6 +430,29 @@ def task_op(op):
         col.canary_lia('canary/model_update_without_clean_breaks_invariant', [], z3.BoolVal(all(inv(r.state['sim'])[0] for r in rc)))
     if op in ('clean_computed', 'clean_all', 'model_update'):
         clause(col, 'leaves_the_plain_state', res, lambda r: plain(r.state['sim']) if r.outcome == 'return' else None)
+    if op in ('misfit', 'gradient'):
+        def same_weights(r):
+            # the reported misfit and the adjoint sources are weighted with the SAME data weights (those held by the survey data)
+            if r.outcome != 'return':
+                return None
+            sim = r.state['sim']
+            items = sim.fields['survey'].fields['_data'].fields['__items__']
+            if 'weights' not in items or sim.fields['_misfit'] is None:
+                return False
+            wd = set(items['weights'].store.deps)
+            used = [set(e[2]) for e in r.state['log'] if e[0] == 'rfield']
+            return wd <= set(cx.deps_of(sim.fields['_misfit'])) and all(u == wd for u in used)
+        clause(col, 'misfit_and_adjoint_sources_use_the_same_data_weights', res, same_weights)
+    if op == 'to_dict':
+        def stored_tol(r):
+            # whatever the shared solver options went through (gradient runs switch to tol_gradient), what is stored is the forward tolerance
+            if r.outcome != 'return' or not isinstance(r.value, dict):
+                return None if r.outcome != 'return' else False
+            so = r.value.get('solver_opts')
+            if not isinstance(so, dict) or not cx.is_sym(so.get('tol')):
+                return False
+            return so['tol'] == r.state['sim'].fields['tol_forward']
+        clause(col, 'stored_solver_options_carry_the_forward_tolerance_whatever_the_history', res, stored_tol)
     if op == 'misfit':
         clause(col, 'misfit_is_cached_and_computed_state_reached', res,
                lambda r: (r.state['sim'].fields['_misfit'] is not None and r.state['sim'].fields['_computed'] is True) if r.outcome == 'return' else None)
